@@ -357,6 +357,30 @@ def run(chk):
 
     for beh in (False, True):
         stale_state_rule(chk, "C03.H.no-stale-state", _mk_call(FILE, "circuit_to_verilog", beh), str, FILE, "circuit_to_verilog")
+    # a read does not depend on the reads made before it in the same process (names the reader gave to sub-expressions of an earlier
+    # text - and_a_b of `~(a & b)`, either operand order - must not be remembered): a circuit whose own nets carry such names, round
+    # tripped in behavioural form after other texts were read, against the same round trip in a fresh environment
+    from ..refmodel import build as _bld
+
+    later = _bld({"and_a_b": ("input", []), "and_b_a": ("input", []), "xor_a_b": ("input", []), "x": ("buf", ["and_a_b"]), "y": ("buf", ["and_b_a"]), "z": ("buf", ["xor_a_b"]),
+                  "o": ("nand", ["x", "y", "z"])}, outputs=["o", "x"], name="later")
+    first_text = "module first (a, b, c, n, m);\n  input a, b, c;\n  output n, m;\n  assign n = ~(a & b);\n  assign m = a ^ b ^ c;\nendmodule\n"
+    PH = Package(repo)
+    prob = None
+    r0 = PH.call(FILE, "verilog_to_circuit", first_text, "first")
+    txt = PH.call(FILE, "circuit_to_verilog", later, True)
+    fresh = Package(repo)
+    txt2 = fresh.call(FILE, "circuit_to_verilog", later, True)
+    if r0[0] != "return" or txt[0] != "return" or txt2[0] != "return":
+        prob = {"problem": "cannot be carried out", "first_read": str(r0)[:80], "write": str(txt)[:80]}
+    else:
+        got = PH.call(FILE, "verilog_to_circuit", txt[1], "later")
+        want = fresh.call(FILE, "verilog_to_circuit", txt2[1], "later")
+        if got[0] != "return" or want[0] != "return" or got[1]._snapshot() != want[1]._snapshot():
+            prob = {"problem": "the read differs from the same read in a fresh environment", "inputs": sorted(got[1].inputs()) if got[0] == "return" else str(got)[:100],
+                    "inputs_in_a_fresh_environment": sorted(want[1].inputs()) if want[0] == "return" else str(want)[:100]}
+    chk.ob("C03.H.no-state-between-reads", "behavioural text with nested expressions read first, then a circuit with nets named like its sub-expressions", prob is None, file="parsing/verilog.py",
+           func="_VerilogCircuitGraphTransformer", fact=prob or {"reads": 2}, expect="the second read equals the same read in a fresh environment")
     # ---- F: to_file / from_file -------------------------------------------
     fs = MemFS()
     env_io = P.env(FILE)
